@@ -1260,6 +1260,12 @@ class FoldConstantsPass(ir.passes.InPlacePass):
                 self._modified = True
                 # TODO(rama): consider merging type/other info from both values
 
+        if any(attr.is_ref() for attr in node.attributes.values()):
+            # An attribute given by reference to an attribute of the enclosing function has no
+            # value here (it is only known at the call site): neither the partial evaluators,
+            # shape inference nor the reference evaluator can say anything about this node.
+            return None
+
         # Propagate const_value, and manually find out shape and type
         # to avoid potentially expensive shape inference on large tensors.
         if _is_onnx_op(node, "Constant"):
